@@ -1,23 +1,600 @@
+// Engine for C06 (deterministic block execution). Driver: generates scenarios (blocks of real contract
+// transactions: faucet pours/refills, stake locks and unlocks on registered miners, governance updates of
+// all contracts with valid, invalid, aliased and cost keys), executes each scenario N times in fresh
+// processes of this binary (fresh map seeds; GOMAXPROCS 1 and 16; warm and cold state cache) through the real
+// chain.Chain.UpdateState, and compares state roots, change counts, statuses, outputs and event lists.
+// Worker (-worker scenario.json out.json): see worker.go.
 package main
 
 import (
+	"crypto/sha256"
+	"encoding/binary"
 	"encoding/json"
 	"fmt"
 	"os"
+	"os/exec"
+	"path/filepath"
+	"sort"
+	"strings"
+	"sync"
+	"time"
+
+	"verifharness/vh"
 )
+
+// ---------- scenario generation ----------
+
+type gset struct {
+	sc, fn string
+	good   [][2]string // key, acceptable value
+	bad    [][2]string // key, value that is rejected (unknown key or unparsable value)
+}
+
+var gsets = []gset{
+	{"miner", "update_globals", [][2]string{{"server_chain.block.max_block_size", "20"}, {"server_chain.block.min_block_size", "2"}, {"server_chain.block.reuse_txns", "true"},
+		{"server_chain.round_range", "5000"}, {"server_chain.state.sync.timeout", "20s"}, {"server_chain.lfb_ticket.ahead", "3"}},
+		[][2]string{{"server_chain.block.max_block_size", "x"}, {"nope", "5"}, {"server_chain.owner", "aa"}, {"server_chain.block.proposal.max_wait_time", "soon"}, {"server_chain.dkg", "true"}}},
+	{"miner", "update_settings", [][2]string{{"max_n", "9"}, {"max_delegates", "150"}, {"reward_round_frequency", "100"}, {"epoch", "1000"}, {"max_charge", "0.4"}, {"cooldown_period", "50"}, {"cost.wait", "120"}},
+		[][2]string{{"max_n", "many"}, {"nope", "1"}, {"epoch", "1.5"}, {"health_check_period", "tomorrow"}, {"owner_id", "not hex"}}},
+	{"storage", "update_settings", [][2]string{{"max_delegates", "150"}, {"max_charge", "0.4"}, {"min_alloc_size", "2048"}, {"validators_per_challenge", "3"}, {"time_unit", "2h"}, {"cost.read_redeem", "90"}},
+		[][2]string{{"max_delegates", "lots"}, {"nope", "1"}, {"time_unit", "2 hours"}, {"challenge_enabled", "maybe"}, {"max_charge", "half"}}},
+	{"faucet", "update-settings", [][2]string{{"pour_amount", "2"}, {"max_pour_amount", "50"}, {"periodic_limit", "500"}, {"global_limit", "50000"}, {"individual_reset", "2h"}, {"global_rest", "40h"}},
+		[][2]string{{"pour_amount", "two"}, {"nope", "1"}, {"individual_reset", "later"}, {"owner_id", "zz"}, {"max_pour_amount", "x"}}},
+	{"vesting", "vestingsc-update-settings", [][2]string{{"min_duration", "3m"}, {"max_duration", "3000h"}, {"max_destinations", "4"}, {"max_description_length", "30"}, {"min_lock", "0.5"}},
+		[][2]string{{"min_duration", "soon"}, {"nope", "1"}, {"max_destinations", "four"}, {"owner_id", "zz"}, {"max_description_length", "x"}}},
+	{"zcn", "update-global-config", [][2]string{{"min_stake", "1"}, {"min_mint", "2"}, {"min_burn", "2"}, {"max_delegates", "12"}, {"min_authorizers", "2"}, {"health_check_period", "2h"}},
+		[][2]string{{"min_mint", "two"}, {"nope", "1"}, {"health_check_period", "later"}, {"max_delegates", "x"}, {"min_authorizers", "1.5"}}},
+}
+
+func fieldsJSON(es [][2]string) string {
+	var b strings.Builder
+	b.WriteString(`{"fields":{`)
+	for i, e := range es {
+		if i > 0 {
+			b.WriteString(",")
+		}
+		k, _ := json.Marshal(e[0])
+		v, _ := json.Marshal(e[1])
+		b.Write(k)
+		b.WriteString(":")
+		b.Write(v)
+	}
+	b.WriteString("}}")
+	return b.String()
+}
+
+// scenario + what the generator knows about it
+type scen struct {
+	scenario
+	Triggers []string      `json:"triggers,omitempty"` // listed findings this scenario exercises
+	ErrCodes [][]*int      `json:"-"`                  // per governance txn: error code per entry (nil = acceptable)
+	Gov      []govTxn      `json:"gov,omitempty"`
+	Late     time.Duration `json:"late,omitempty"` // second half of the executions starts this much later (clock scenario)
+}
+
+type govTxn struct {
+	Block, Txn int
+	Entries    [][2]string
+	Bad        []bool
+}
+
+func hasTrig(s scen, t string) bool {
+	for _, x := range s.Triggers {
+		if x == t {
+			return true
+		}
+	}
+	return false
+}
+
+func genGov(r *vh.Rand, g gset, nBad int) (stxn, govTxn) {
+	ng := r.Range(1, 4)
+	var es [][2]string
+	var bad []bool
+	used := map[string]bool{}
+	for _, i := range r.Perm(len(g.good))[:ng] {
+		es = append(es, g.good[i])
+		bad = append(bad, false)
+		used[g.good[i][0]] = true
+	}
+	n := 0
+	for _, i := range r.Perm(len(g.bad)) {
+		if n == nBad {
+			break
+		}
+		if used[g.bad[i][0]] {
+			continue
+		}
+		used[g.bad[i][0]] = true
+		// spread the rejected entries over the request
+		pos := (n * (len(es) + 1)) / (nBad)
+		if pos > len(es) {
+			pos = len(es)
+		}
+		es = append(es[:pos], append([][2]string{g.bad[i]}, es[pos:]...)...)
+		bad = append(bad[:pos], append([]bool{true}, bad[pos:]...)...)
+		n++
+	}
+	return stxn{From: "owner", SC: g.sc, Fn: g.fn, Input: fieldsJSON(es)}, govTxn{Entries: es, Bad: bad}
+}
+
+func genScenario(r *vh.Rand, kind int) scen {
+	var s scen
+	s.Miners, s.Sharders = 3, 1
+	accts := []string{"a1", "a2", "a3", "a4", "a5"}
+	nb := r.Range(2, 4)
+	for b := 0; b < nb; b++ {
+		var blk sblock
+		nt := r.Range(2, 6)
+		for i := 0; i < nt; i++ {
+			switch x := r.Intn(10); {
+			case x < 3:
+				blk.Txns = append(blk.Txns, stxn{From: accts[r.Intn(len(accts))], SC: "faucet", Fn: "pour"})
+			case x < 4:
+				blk.Txns = append(blk.Txns, stxn{From: accts[r.Intn(len(accts))], SC: "faucet", Fn: "refill", Value: uint64(r.Range(1, 50)) * 1e8})
+			case x < 6:
+				blk.Txns = append(blk.Txns, stxn{From: accts[r.Intn(len(accts))], SC: "miner", Fn: "addToDelegatePool", Value: uint64(r.Range(2, 9)) * 1e10,
+					Input: fmt.Sprintf(`{"provider_type":1,"provider_id":%q}`, mkNode(1+r.Intn(3), r.Intn(3)).id)})
+			case x < 7:
+				blk.Txns = append(blk.Txns, stxn{From: accts[r.Intn(len(accts))], SC: "miner", Fn: "deleteFromDelegatePool",
+					Input: fmt.Sprintf(`{"provider_type":1,"provider_id":%q}`, mkNode(1, r.Intn(3)).id)})
+			default:
+				g := gsets[r.Intn(len(gsets))]
+				nBad := 0
+				if r.Chance(1, 3) {
+					nBad = 1 // a single rejected entry: the error text does not depend on the order
+				}
+				if kind == 1 && r.Chance(1, 2) {
+					nBad = 3
+				}
+				t, gt := genGov(r, g, nBad)
+				gt.Block, gt.Txn = b, len(blk.Txns)
+				s.Gov = append(s.Gov, gt)
+				if nBad >= 2 {
+					s.Triggers = append(s.Triggers, "first-error")
+				}
+				blk.Txns = append(blk.Txns, t)
+			}
+		}
+		s.Blocks = append(s.Blocks, blk)
+	}
+	switch kind {
+	case 2: // two spellings of one storagesc key, then the commit
+		s.Triggers = append(s.Triggers, "alias")
+		s.Blocks = append(s.Blocks, sblock{Txns: []stxn{
+			{From: "owner", SC: "storage", Fn: "update_settings", Input: fieldsJSON([][2]string{{" max_delegates", "7"}, {"max_charge", "0.3"}, {"min_alloc_size", "4096"},
+				{"validators_per_challenge", "4"}, {"cost.read_redeem", "80"}, {"time_unit", "3h"}, {"max_delegates", "9"}})},
+			{From: "a1", SC: "storage", Fn: "commit_settings_changes", Input: `{"round":9}`}}})
+	case 3: // a cost key in the middle of a faucet / vesting request
+		s.Triggers = append(s.Triggers, "cost-cut")
+		s.Blocks = append(s.Blocks, sblock{Txns: []stxn{
+			{From: "owner", SC: "faucet", Fn: "update-settings", Input: fieldsJSON([][2]string{{"pour_amount", "2"}, {"max_pour_amount", "50"}, {"periodic_limit", "500"},
+				{"cost.pour", "5"}, {"global_limit", "50000"}, {"individual_reset", "2h"}, {"global_rest", "40h"}})},
+			{From: "owner", SC: "vesting", Fn: "vestingsc-update-settings", Input: fieldsJSON([][2]string{{"min_duration", "3m"}, {"max_duration", "3000h"}, {"cost.add", "7"},
+				{"max_destinations", "4"}, {"max_description_length", "30"}})}}})
+	}
+	s.Name = fmt.Sprintf("kind%d", kind)
+	return s
+}
+
+// the wall-clock scenario: a stake locked "now + 6 s" (transaction time) is unlocked in the next block;
+// executions started before that instant refuse, executions started after it allow.
+func clockScenario() scen {
+	var s scen
+	s.Name = "wall-clock-lock-period"
+	s.Miners, s.Sharders = 3, 1
+	s.BaseTime = time.Now().Unix() + 6
+	s.Late = 9 * time.Second
+	s.Triggers = []string{"clock"}
+	m := mkNode(1, 0).id
+	s.Blocks = []sblock{
+		{Txns: []stxn{{From: "a1", SC: "miner", Fn: "addToDelegatePool", Value: 3e10, Input: fmt.Sprintf(`{"provider_type":1,"provider_id":%q}`, m)}}},
+		{Txns: []stxn{{From: "a1", SC: "miner", Fn: "deleteFromDelegatePool", TimeOffset: 1, Input: fmt.Sprintf(`{"provider_type":1,"provider_id":%q}`, m)}}},
+	}
+	return s
+}
+
+// ---------- executing a scenario N times ----------
+
+type runCfg struct {
+	procs int
+	cold  bool
+	delay time.Duration
+}
+
+func execRuns(self, dir string, s scen, cfgs []runCfg) ([]result, []string) {
+	res := make([]result, len(cfgs))
+	errs := make([]string, len(cfgs))
+	var wg sync.WaitGroup
+	sem := make(chan struct{}, 8)
+	for i, c := range cfgs {
+		wg.Add(1)
+		go func(i int, c runCfg) {
+			defer wg.Done()
+			time.Sleep(c.delay)
+			sem <- struct{}{}
+			defer func() { <-sem }()
+			sc2 := s.scenario
+			sc2.Cold = c.cold
+			in := filepath.Join(dir, fmt.Sprintf("scn_%s_%d.json", s.Name, i))
+			out := filepath.Join(dir, fmt.Sprintf("res_%s_%d.json", s.Name, i))
+			b, _ := json.Marshal(sc2)
+			must(os.WriteFile(in, b, 0o644))
+			cmd := exec.Command(self, "-worker", in, out)
+			cmd.Env = append(os.Environ(), fmt.Sprintf("GOMAXPROCS=%d", c.procs))
+			cmd.Dir = dir
+			if o, err := cmd.CombinedOutput(); err != nil {
+				tail := string(o)
+				if len(tail) > 600 {
+					tail = tail[len(tail)-600:]
+				}
+				errs[i] = fmt.Sprintf("worker failed: %v: %s", err, tail)
+				return
+			}
+			rb, err := os.ReadFile(out)
+			if err != nil {
+				errs[i] = err.Error()
+				return
+			}
+			if err := json.Unmarshal(rb, &res[i]); err != nil {
+				errs[i] = err.Error()
+			}
+			_ = os.Remove(in)
+			_ = os.Remove(out)
+		}(i, c)
+	}
+	wg.Wait()
+	return res, errs
+}
+
+func digest(parts ...interface{}) int64 {
+	b, _ := json.Marshal(parts)
+	h := sha256.Sum256(b)
+	return int64(binary.BigEndian.Uint64(h[:8]) >> 2)
+}
+
+type viol struct{ sig, desc string }
+
+// compare: the property on the executions of one scenario.
+func compare(s scen, rs []result, errs []string) ([]viol, int64) {
+	var vs []viol
+	add := func(sig, f string, a ...interface{}) {
+		vs = append(vs, viol{"C06:" + sig, s.Name + ": " + fmt.Sprintf(f, a...)})
+	}
+	for i, e := range errs {
+		if e != "" {
+			add("worker-failed", "execution %d: %s", i, e)
+			return vs, 0
+		}
+	}
+	r0 := rs[0]
+	for i := 1; i < len(rs); i++ {
+		r := rs[i]
+		for b := range r0.Roots {
+			if b >= len(r.Roots) {
+				break
+			}
+			for t := range r0.Txns[b] {
+				x, y := r0.Txns[b][t], r.Txns[b][t]
+				where := fmt.Sprintf("block %d txn %d (%s %s)", b, t, s.Blocks[b].Txns[t].SC, s.Blocks[b].Txns[t].Fn)
+				switch {
+				case x.Panic != y.Panic:
+					add("panic-differs", "%s: %q vs %q", where, x.Panic, y.Panic)
+				case x.Applied != y.Applied || x.Status != y.Status:
+					if hasTrig(s, "clock") {
+						add("wall-clock-lock-period", "%s: the same block gives status %d (%s) in one execution and status %d (%s) in an execution started %v later: "+
+							"StakePoolUnlock compares the lock period with time.Now()", where, x.Status, short(x.Output), y.Status, short(y.Output), s.Late)
+					} else {
+						add("status-differs", "%s: status %d/%v vs %d/%v", where, x.Status, x.Applied, y.Status, y.Applied)
+					}
+				case x.Output != y.Output:
+					if hasTrig(s, "first-error") && x.Status == 2 {
+						add("settings-error-in-map-order", "%s: the transaction output (error text of the first invalid entry in map order) differs between executions: %q vs %q", where, short(x.Output), short(y.Output))
+					} else if hasTrig(s, "alias") || hasTrig(s, "cost-cut") {
+						add("settings-applied-in-map-order", "%s: output differs: %q vs %q", where, short(x.Output), short(y.Output))
+					} else {
+						add("output-differs", "%s: %q vs %q", where, short(x.Output), short(y.Output))
+					}
+				}
+				if strings.Join(x.Events, "|") != strings.Join(y.Events, "|") {
+					if strings.Join(sortedCopy(x.Events), "|") == strings.Join(sortedCopy(y.Events), "|") {
+						onlyUsers := true
+						for k := range x.Events {
+							if x.Events[k] != y.Events[k] && !(strings.Contains(x.Events[k], "/user:") && strings.Contains(y.Events[k], "/user:")) {
+								onlyUsers = false
+							}
+						}
+						if onlyUsers {
+							add("user-events-in-map-order", "%s: the user events of the transaction come out in a different order: %v vs %v", where, tail(x.Events, 3), tail(y.Events, 3))
+						} else {
+							add("event-order-differs", "%s: same events, different order: %v vs %v", where, x.Events, y.Events)
+						}
+					} else if !(x.Output != y.Output || x.Status != y.Status) {
+						add("event-list-differs", "%s: %v vs %v", where, x.Events, y.Events)
+					}
+				}
+			}
+			if r0.Roots[b] != r.Roots[b] || r0.Changes[b] != r.Changes[b] {
+				if hasTrig(s, "alias") || hasTrig(s, "cost-cut") {
+					add("settings-applied-in-map-order", "state root after block %d differs between executions (%s.. vs %s..): two spellings of one key / the entries after a cost key are applied in map order",
+						b, r0.Roots[b][:12], r.Roots[b][:12])
+				} else if hasTrig(s, "clock") {
+					add("wall-clock-lock-period", "state root after block %d differs between an execution and one started %v later", b, s.Late)
+				} else {
+					add("state-root-differs", "state root / change count after block %d differs: %s.. (%d) vs %s.. (%d)", b, r0.Roots[b][:12], r0.Changes[b], r.Roots[b][:12], r.Changes[b])
+				}
+				break
+			}
+		}
+	}
+	return dedupe(vs), 0
+}
+
+func dedupe(vs []viol) []viol {
+	seen := map[string]bool{}
+	var out []viol
+	for _, v := range vs {
+		if !seen[v.sig] {
+			seen[v.sig] = true
+			out = append(out, v)
+		}
+	}
+	return out
+}
+
+func short(s string) string {
+	if len(s) > 110 {
+		return s[:110] + "..."
+	}
+	return s
+}
+
+func tail(xs []string, n int) []string {
+	if len(xs) > n {
+		xs = xs[len(xs)-n:]
+	}
+	out := []string{}
+	for _, x := range xs {
+		if len(x) > 60 {
+			x = x[:20] + ".." + x[len(x)-30:]
+		}
+		out = append(out, x)
+	}
+	return out
+}
+
+// runDigest: one number per execution covering roots, change counts, statuses, outputs, events as a multiset
+func runDigest(r result) int64 {
+	type t struct {
+		A bool
+		S int
+		O string
+		E []string
+		P string
+	}
+	var all [][]t
+	for _, b := range r.Txns {
+		var row []t
+		for _, x := range b {
+			row = append(row, t{x.Applied, x.Status, x.OutHash, sortedCopy(x.Events), x.Panic})
+		}
+		all = append(all, row)
+	}
+	return digest(r.Roots, r.Changes, all)
+}
+
+// error code of an entry of a governance request as seen in the output text (index of the entry whose key or
+// value the text names), or nil
+func observedErr(out string, g govTxn) *int {
+	for i, e := range g.Entries {
+		if g.Bad[i] && (strings.Contains(out, "'"+e[0]+"'") || strings.Contains(out, e[0]+" ") || strings.Contains(out, " "+e[0]) || (e[1] != "" && strings.Contains(out, e[1]))) {
+			k := i + 1
+			return &k
+		}
+	}
+	return nil
+}
+
+func optZ(p *int) string {
+	if p == nil {
+		return "None"
+	}
+	return fmt.Sprintf("(Some %d)", *p)
+}
 
 func main() {
 	if len(os.Args) >= 4 && os.Args[1] == "-worker" {
 		workerMain(os.Args[2], os.Args[3])
 		return
 	}
-	// temporary: run one scenario inline
-	scn := scenario{Name: "probe", Miners: 3, Sharders: 1, Blocks: []sblock{{Txns: []stxn{
-		{From: "a1", SC: "faucet", Fn: "pour", Value: 0},
-		{From: "owner", SC: "miner", Fn: "update_globals", Input: `{"fields":{"server_chain.block.max_block_size":"x","nope":"5","server_chain.owner":"aa"}}`},
-		{From: "owner", SC: "faucet", Fn: "update-settings", Input: `{"fields":{"cost.pour":"5","pour_amount":"2"}}`},
-		{From: "a2", SC: "miner", Fn: "addToDelegatePool", Value: 20000000000, Input: fmt.Sprintf(`{"provider_type":1,"provider_id":%q}`, mkNode(1, 0).id)},
-	}}}}
-	b, _ := json.MarshalIndent(runWorker(scn), "", " ")
-	fmt.Println(string(b))
+	o := vh.ParseFlags()
+	rep := vh.NewReport("determinism", "C06", o)
+	rep.Rule = "scenarios of 2-5 blocks of real contract transactions (faucet pour/refill, stake lock/unlock on registered miners, governance updates of the six entry points " +
+		"with 0, 1 or 3 rejected entries, two spellings of one key, a cost key inside a request) executed through chain.UpdateState with the real contracts; every scenario is " +
+		"executed 6 times (thorough: 16) in fresh processes: GOMAXPROCS 1 and 16, warm and cold state cache; one scenario is executed before and after a wall-clock instant; " +
+		"non-trivial = at least one successful state-changing transaction and one failed one; distinct by scenario"
+	self, err := os.Executable()
+	must(err)
+	cf := &vh.CasesFile{Imports: []string{"Base.Corr", "Model.Determinism", "Corr.Determinism"}, CaseType: "det_case", CheckFn: "det_check"}
+	nRuns := o.N(6, 16)
+	mkCfgs := func(s scen) []runCfg {
+		var cs []runCfg
+		for i := 0; i < nRuns; i++ {
+			c := runCfg{procs: 1, cold: i%4 >= 2}
+			if i%2 == 1 {
+				c.procs = 16
+			}
+			if s.Late > 0 && i >= nRuns/2 {
+				c.delay = s.Late
+			}
+			cs = append(cs, c)
+		}
+		return cs
+	}
+	handle := func(s scen) {
+		rs, errs := execRuns(self, o.Out, s, mkCfgs(s))
+		vs, _ := compare(s, rs, errs)
+		ok, failed := 0, 0
+		if errs[0] == "" {
+			for _, b := range rs[0].Txns {
+				for _, t := range b {
+					switch {
+					case t.Applied && t.Status == 1:
+						ok++
+					case t.Applied:
+						failed++
+					}
+					rep.Count(fmt.Sprintf("txn-status-%d", t.Status))
+				}
+			}
+		}
+		rep.Count("scenario-" + s.Name)
+		key, _ := json.Marshal(s)
+		rep.Case(string(key), ok > 0 && failed > 0, s)
+		// cases for the model
+		if errs[0] == "" {
+			if len(s.Triggers) == 0 {
+				var ds []string
+				for _, r := range rs {
+					ds = append(ds, fmt.Sprint(runDigest(r)))
+				}
+				cf.Add("(DcRuns " + vh.List(ds) + ")")
+				rep.CaseInputs = append(rep.CaseInputs, s)
+			}
+			for _, g := range s.Gov {
+				var codes, obs []string
+				for i := range g.Entries {
+					if g.Bad[i] {
+						k := i + 1
+						codes = append(codes, optZ(&k))
+					} else {
+						codes = append(codes, "None")
+					}
+				}
+				usable := true
+				for _, r := range rs {
+					t := r.Txns[g.Block][g.Txn]
+					switch {
+					case t.Applied && t.Status == 1:
+						obs = append(obs, "None")
+					case t.Applied:
+						p := observedErr(t.Output, g)
+						if p == nil {
+							usable = false // rejected by validation of an otherwise acceptable request
+						}
+						obs = append(obs, optZ(p))
+					default:
+						usable = false
+					}
+				}
+				if usable {
+					cf.Add(fmt.Sprintf("(DcFirstErr %s %s)", vh.List(codes), vh.List(obs)))
+					rep.CaseInputs = append(rep.CaseInputs, s)
+				}
+			}
+		}
+		for _, v := range vs {
+			dup := false
+			for _, old := range rep.Violations {
+				dup = dup || old.Signature == v.sig
+			}
+			if !dup {
+				rep.Violate(v.sig, v.desc, shrink(self, o.Out, s, v.sig, mkCfgs))
+			}
+		}
+	}
+	finish := func() {
+		files, err := cf.Write(o.Out, "C06")
+		must(err)
+		rep.CaseFiles = files
+		rep.ShardSize = 400
+		rep.Write(o.Out)
+	}
+	var rs scen
+	if o.LoadReplay(&rs) {
+		if hasTrig(rs, "clock") {
+			rs.BaseTime = time.Now().Unix() + 6
+		}
+		handle(rs)
+		finish()
+		return
+	}
+	rnd := vh.NewRand(o.Seed)
+	// the clock scenario runs concurrently with the others (it sleeps)
+	var wg sync.WaitGroup
+	var mu sync.Mutex
+	wg.Add(1)
+	go func() {
+		defer wg.Done()
+		s := clockScenario()
+		rsx, errs := execRuns(self, o.Out, s, mkCfgs(s))
+		vs, _ := compare(s, rsx, errs)
+		mu.Lock()
+		defer mu.Unlock()
+		rep.Count("scenario-" + s.Name)
+		key, _ := json.Marshal(s)
+		rep.Case(string(key), true, s)
+		for _, v := range vs {
+			rep.Violate(v.sig, v.desc, s)
+		}
+	}()
+	n := o.N(16, 120)
+	for i := 0; i < n; i++ {
+		kind := 0
+		switch {
+		case i%8 == 1 || i%8 == 5:
+			kind = 1
+		case i%8 == 3:
+			kind = 2
+		case i%8 == 7:
+			kind = 3
+		}
+		s := genScenario(rnd, kind)
+		s.Name = fmt.Sprintf("s%d-kind%d", i, kind)
+		mu.Lock()
+		handle(s)
+		mu.Unlock()
+	}
+	wg.Wait()
+	rep.Note("each execution is a fresh process of the engine binary (own map hash seeds); executions differ in GOMAXPROCS (1, 16) and in whether the state cache is kept across blocks")
+	rep.Note("events are compared as a multiset for the scenario digest and as a sequence for the event-order signatures")
+	finish()
+}
+
+// shrink: drop transactions while the signature still shows up (each attempt re-executes the scenario N times)
+func shrink(self, dir string, s scen, sig string, mk func(scen) []runCfg) scen {
+	if hasTrig(s, "clock") {
+		return s
+	}
+	fails := func(s2 scen) bool {
+		rs, errs := execRuns(self, dir, s2, mk(s2))
+		vs, _ := compare(s2, rs, errs)
+		for _, v := range vs {
+			if v.sig == sig {
+				return true
+			}
+		}
+		return false
+	}
+	type pos struct{ b, t int }
+	var all []pos
+	for b := range s.Blocks {
+		for t := range s.Blocks[b].Txns {
+			all = append(all, pos{b, t})
+		}
+	}
+	build := func(keep []int) scen {
+		s2 := s
+		s2.Gov = nil
+		s2.Blocks = make([]sblock, len(s.Blocks))
+		for _, i := range keep {
+			p := all[i]
+			s2.Blocks[p.b].Txns = append(s2.Blocks[p.b].Txns, s.Blocks[p.b].Txns[p.t])
+		}
+		return s2
+	}
+	keep := vh.ShrinkIdx(len(all), func(keep []int) bool { return len(keep) > 0 && fails(build(keep)) })
+	out := build(keep)
+	sort.Ints(keep)
+	return out
 }
